@@ -100,6 +100,9 @@ def describe(data):
     table = []
     if codec != "null":
         for off, size, c, payload in w["blocks"]:
-            table.append({"c": list(payload), "d": list(inflate(codec, payload))})
+            try:
+                table.append({"c": list(payload), "d": list(inflate(codec, payload)), "ok": True})
+            except Exception:  # noqa: BLE001 - the payload is not a stream of the header's codec: a fact about the file, judged by TLC
+                table.append({"c": list(payload), "d": [], "ok": False})
     return {"hs": {"text": list(text), "tree": proj.pj(json.loads(text))}, "inflate": table,
             "walk": [[b[0], b[1], b[2]] for b in w["blocks"]], "hend": w["hend"]}
